@@ -10,6 +10,7 @@ package secp256k1
 
 import (
 	"crypto"
+	_ "crypto/sha256" // registers SHA-256 for crypto.SHA256.New()
 	"encoding/binary"
 	"errors"
 	"hash"
